@@ -479,3 +479,313 @@ Proof.
   - exists (fun i => i =? id); repeat split; reflexivity.
   - exists (fun i => i <? N.succ (jseg j)); repeat split; reflexivity.
 Qed.
+
+(** * Every event anywhere in the state was stored *)
+
+Definition all_events (s : shard) : list event :=
+  mem s ++ frows (passives s) ++ jrows (jobs s) ++ walq s ++ frows (walfiles s) ++ drows (dirs s) ++ wlost s.
+
+Lemma all_events_In : forall s e, In e (all_events s) <->
+  In e (mem s) \/ In e (frows (passives s)) \/ In e (jrows (jobs s)) \/ In e (walq s) \/
+  In e (frows (walfiles s)) \/ In e (drows (dirs s)) \/ In e (wlost s).
+Proof. intros; unfold all_events; rewrite !in_app_iff; tauto. Qed.
+
+Lemma frows_app : forall a b, frows (a ++ b) = frows a ++ frows b.
+Proof. intros; unfold frows; rewrite map_app, concat_app; reflexivity. Qed.
+Lemma jrows_app : forall a b, jrows (a ++ b) = jrows a ++ jrows b.
+Proof. intros; unfold jrows; rewrite map_app, concat_app; reflexivity. Qed.
+
+Lemma frows_filter : forall e p fs, In e (frows (filter p fs)) -> In e (frows fs).
+Proof.
+  intros e p fs; rewrite !frows_In. intros [f [Hf He]]. apply filter_In in Hf. exists f; tauto.
+Qed.
+
+Lemma wal_append_rows : forall x files id e,
+  In x (frows (wal_append files id e)) <-> In x (frows files) \/ x = e.
+Proof.
+  intros x files id e; split; [|apply wal_append_keeps].
+  rewrite !frows_In. intros [f' [Hf' Hx]].
+  destruct (wal_append_In _ _ _ _ Hf') as [H|[_ H]]; [left; exists f'; auto|].
+  destruct (H x Hx) as [->|[f [Hf [_ Hxf]]]]; [right; reflexivity|left; exists f; auto].
+Qed.
+
+Lemma fw_dirs_mono : forall s l e, In e (drows (dirs s)) -> In e (drows (dirs (fw_step s l))).
+Proof.
+  intros s l e H. destruct (fw_dirs s l) as [->|[j [rest [rows [_ [_ [_ ->]]]]]]]; [exact H|].
+  apply dir_add_rows_In; left; exact H.
+Qed.
+
+Lemma fw_wlost_mono : forall s l e, In e (wlost s) -> In e (wlost (fw_step s l)).
+Proof.
+  intros s l e H. destruct (fw_files s l) as [[_ ->]|[p [_ [-> _]]]]; [exact H|].
+  apply in_app_iff; left; exact H.
+Qed.
+
+Lemma step_all_events : forall s l e,
+  In e (all_events (step s l)) -> In e (all_events s) \/ In e (stored_by l).
+Proof.
+  intros s l e; rewrite !all_events_In. destruct l as [e0| | | |f| |]; cbn [step stored_by In].
+  - destruct (store_frame s e0) as (_ & Eq & Ef & Ed & El & _).
+    rewrite Eq, Ef, Ed, El, in_app_iff. cbn [In].
+    destruct (store_cases s e0) as [(_ & -> & -> & -> & _)|(_ & -> & -> & -> & _)].
+    + rewrite in_app_iff; cbn [In]. tauto.
+    + rewrite frows_app, jrows_app, !in_app_iff. unfold frows, jrows; cbn [map concat snd jevs In].
+      rewrite !app_nil_r, !in_app_iff; cbn [In]. tauto.
+  - unfold flush_cmd. destruct (rotate_frame s) as (_ & -> & -> & -> & -> & -> & -> & ->).
+    rewrite frows_app, jrows_app, !in_app_iff. unfold frows at 2, jrows at 2; cbn [map concat snd jevs In].
+    rewrite !app_nil_r. tauto.
+  - destruct (walq s) as [|e1 q] eqn:Eq; [rewrite (wal_write_nil s Eq), Eq; tauto|].
+    destruct (wal_write_frame s) as (_ & Eq' & -> & -> & -> & -> & _).
+    rewrite Eq', Eq; cbn [tl In].
+    destruct (wal_write_cons s e1 q Eq) as [_ [(_ & -> & ->)|(_ & -> & ->)]].
+    + rewrite in_app_iff; cbn [In]. intuition.
+    + rewrite wal_append_rows. intuition.
+  - destruct (wal_rotate_frame s) as (_ & -> & -> & -> & -> & -> & -> & _ & [-> | ->]); [tauto|].
+    rewrite wal_touch_rows. tauto.
+  - destruct (fw_frame s f) as (_ & -> & -> & _). intros H.
+    destruct H as [H|[H|[H|[H|[H|[H|H]]]]]]; [tauto|apply fw_passives in H; tauto|apply fw_jobs in H; tauto|tauto| | |].
+    + destruct (fw_files s f) as [[E _]|[p [E _]]]; rewrite E in H; [tauto|]. apply frows_filter in H; tauto.
+    + destruct (fw_dirs s f) as [E|[j [rest [rows [Ej [_ [Hincl E]]]]]]]; rewrite E in H; [tauto|].
+      apply dir_add_rows_In in H. destruct H as [H|H]; [tauto|]. left; right; right; left.
+      rewrite Ej; unfold jrows; cbn [map concat]. apply in_app_iff; left. apply Hincl, H.
+    + destruct (fw_files s f) as [[_ E]|[p [_ [E _]]]]; rewrite E in H; [tauto|].
+      apply in_app_iff in H. destruct H as [H|H]; [tauto|]. apply pruned_unsaved_In in H.
+      destruct H as [H _]. apply frows_filter in H. tauto.
+  - destruct (crash_frame s) as (_ & -> & -> & -> & -> & -> & -> & -> & _).
+    unfold frows at 1, jrows at 1; cbn [map concat In]. tauto.
+  - destruct (restart_frame s) as (_ & -> & -> & -> & -> & -> & -> & -> & _).
+    rewrite wal_touch_rows. unfold frows at 2, jrows at 1; cbn [map concat In]. tauto.
+Qed.
+
+Lemma all_events_init : forall c, all_events (init c) = [].
+Proof. reflexivity. Qed.
+
+Lemma reach_stored : forall c ls e, In e (all_events (run (init c) ls)) -> In e (stored ls).
+Proof.
+  intros c ls; induction ls as [|l ls IH] using rev_ind; intros e H.
+  - change (run (init c) []) with (init c) in H. rewrite all_events_init in H. destruct H.
+  - rewrite run_snoc in H. rewrite stored_snoc, in_app_iff.
+    destruct (step_all_events _ _ _ H) as [H1|H1]; [left; apply IH, H1|right; exact H1].
+Qed.
+
+(** * The FIFO of the model is the specification's FIFO *)
+
+Lemma walq_step : forall s l, walq (step s l) = pend_step (walq s) l.
+Proof.
+  intros s l; destruct l as [e0| | | |f| |]; cbn [step pend_step].
+  - apply store_frame.
+  - apply rotate_frame.
+  - apply wal_write_frame.
+  - apply wal_rotate_frame.
+  - apply fw_frame.
+  - reflexivity.
+  - reflexivity.
+Qed.
+
+Lemma walq_pending : forall c ls, walq (run (init c) ls) = pending ls.
+Proof.
+  intros c ls; induction ls as [|l ls IH] using rev_ind; [reflexivity|].
+  rewrite run_snoc, pending_snoc, walq_step, IH. reflexivity.
+Qed.
+
+(** * The recoverability invariant: a durable event is in the ghost list, in a
+      log file on disk, or in a segment directory *)
+
+Definition recoverable (s : shard) (e : event) : Prop :=
+  In e (frows (walfiles s)) \/ In e (drows (dirs s)).
+
+Definition safe (D : list event) (s : shard) : Prop :=
+  forall e, In e D -> In e (wlost s) \/ recoverable s e.
+
+Lemma safe_step : forall D s l, safe D s -> safe (D ++ written_by (walq s) l) (step s l).
+Proof.
+  intros D s l HS e He. unfold safe, recoverable in *. apply in_app_iff in He.
+  destruct l as [e0| | | |f| |]; cbn [step written_by] in *.
+  - destruct (store_frame s e0) as (_ & _ & -> & -> & -> & _).
+    destruct He as [He|He]; [exact (HS e He)|destruct (walq s); destruct He].
+  - unfold flush_cmd. destruct (rotate_frame s) as (_ & _ & -> & -> & -> & _).
+    destruct He as [He|He]; [exact (HS e He)|destruct (walq s); destruct He].
+  - destruct (walq s) as [|e1 q] eqn:Eq.
+    + rewrite (wal_write_nil s Eq). destruct He as [He|[]]; exact (HS e He).
+    + destruct (wal_write_frame s) as (_ & _ & -> & _).
+      destruct (wal_write_cons s e1 q Eq) as [_ [(_ & -> & ->)|(_ & -> & ->)]].
+      * rewrite in_app_iff; cbn [In]. destruct He as [He|[<-|[]]]; [destruct (HS e He); tauto|left; right; left; reflexivity].
+      * rewrite wal_append_rows. destruct He as [He|[<-|[]]]; [destruct (HS e He); tauto|right; left; right; reflexivity].
+  - assert (He' : In e D) by (destruct He as [He|He]; [exact He|destruct (walq s); destruct He]).
+    destruct (wal_rotate_frame s) as (_ & _ & -> & -> & _ & _ & _ & _ & [-> | ->]); [exact (HS e He')|].
+    rewrite wal_touch_rows. exact (HS e He').
+  - assert (He' : In e D) by (destruct He as [He|He]; [exact He|destruct (walq s); destruct He]).
+    destruct (HS e He') as [H|[H|H]].
+    + left; apply fw_wlost_mono, H.
+    + destruct (fw_files s f) as [[-> ->]|[p [-> [-> ->]]]]; [tauto|].
+      apply frows_In in H. destruct H as [g [Hg Hx]].
+      destruct (p (fst g)) eqn:Ep.
+      * destruct (in_dec ev_eq_dec e (drows (dirs s))) as [Hd|Hd]; [tauto|].
+        left. apply in_app_iff; right. apply pruned_unsaved_In. split; [|exact Hd].
+        apply frows_In. exists g; split; [apply filter_In; auto|exact Hx].
+      * right; left. apply frows_In. exists g; split; [apply filter_In; rewrite Ep; auto|exact Hx].
+    + right; right; apply fw_dirs_mono, H.
+  - destruct He as [He|He]; [exact (HS e He)|destruct (walq s); destruct He].
+  - assert (He' : In e D) by (destruct He as [He|He]; [exact He|destruct (walq s); destruct He]).
+    destruct (restart_frame s) as (_ & _ & -> & -> & -> & _). rewrite wal_touch_rows. exact (HS e He').
+Qed.
+
+Lemma safe_run : forall c ls, safe (durable ls) (run (init c) ls).
+Proof.
+  intros c ls; induction ls as [|l ls IH] using rev_ind; [intros e []|].
+  rewrite run_snoc, durable_snoc, <- (walq_pending c). apply safe_step, IH.
+Qed.
+
+Lemma recoverable_all_events : forall s e, recoverable s e -> In e (all_events s).
+Proof. intros s e H; apply all_events_In; unfold recoverable in H; tauto. Qed.
+
+Lemma durable_stored : forall ls e, In e (durable ls) -> In e (stored ls).
+Proof.
+  intros ls e H. apply (reach_stored 1). destruct (safe_run 1 ls e H) as [H1|H1].
+  - apply all_events_In; tauto.
+  - apply recoverable_all_events, H1.
+Qed.
+
+(** * Reads *)
+
+Lemma of_uid_In : forall u l e, In e (of_uid u l) <-> In e l /\ euid e = u.
+Proof. intros; unfold of_uid; rewrite filter_In, N.eqb_eq; tauto. Qed.
+
+Lemma dedup_in : forall l seen e, In e (dedup_ev l seen) -> In e l /\ ~ In (ek e) seen.
+Proof.
+  induction l as [|x r IH]; intros seen e; cbn [dedup_ev]; [intros []|].
+  destruct (memb (ek x) seen) eqn:M.
+  - intros H; destruct (IH _ _ H); split; [right|]; assumption.
+  - intros [<-|H].
+    + split; [left; reflexivity|]. intros T; apply memb_In in T; congruence.
+    + destruct (IH _ _ H) as [H1 H2]; split; [right; exact H1|]. intros T; apply H2; right; exact T.
+Qed.
+
+Lemma dedup_keys_nodup : forall l seen, NoDup (map ek (dedup_ev l seen)).
+Proof.
+  induction l as [|x r IH]; intros seen; cbn [dedup_ev map]; [constructor|].
+  destruct (memb (ek x) seen); [apply IH|]. cbn [map]. constructor; [|apply IH].
+  intros T. apply in_map_iff in T. destruct T as [y [Ey Hy]]. apply dedup_in in Hy.
+  destruct Hy as [_ Hy]. apply Hy; left; symmetry; exact Ey.
+Qed.
+
+Lemma dedup_keeps : forall l seen e,
+  In e l -> ~ In (ek e) seen -> (forall e', In e' l -> ek e' = ek e -> e' = e) -> In e (dedup_ev l seen).
+Proof.
+  induction l as [|x r IH]; intros seen e Hin Hs Hu; [destruct Hin|]. cbn [dedup_ev].
+  destruct (memb (ek x) seen) eqn:M.
+  - destruct Hin as [->|Hin]; [apply memb_In in M; contradiction|].
+    apply IH; [exact Hin|exact Hs|]. intros e' H1; apply Hu; right; exact H1.
+  - destruct (ev_eq_dec x e) as [->|Hne]; [left; reflexivity|]. right.
+    destruct Hin as [->|Hin]; [congruence|]. apply IH; [exact Hin| |].
+    + intros [T|T]; [|contradiction]. apply Hne, Hu; [left; reflexivity|exact T].
+    + intros e' H1; apply Hu; right; exact H1.
+Qed.
+
+Lemma select_keys_nodup : forall s u, NoDup (map ek (select s u)).
+Proof. intros; apply dedup_keys_nodup. Qed.
+
+Lemma select_at_most_once : forall s u e, (occ e (select s u) <= 1)%nat.
+Proof.
+  intros s u e. unfold occ. apply NoDup_count_occ. apply (NoDup_map_inv ek), select_keys_nodup.
+Qed.
+
+Lemma select_once : forall s u e,
+  In e (scan s u) -> (forall e', In e' (scan s u) -> ek e' = ek e -> e' = e) ->
+  occ e (select s u) = 1%nat.
+Proof.
+  intros s u e Hin Hu. unfold occ.
+  apply (proj1 (NoDup_count_occ' ev_eq_dec (select s u))).
+  - apply (NoDup_map_inv ek), select_keys_nodup.
+  - apply dedup_keeps; [exact Hin|intros []|exact Hu].
+Qed.
+
+Lemma select_scan : forall s u e, In e (select s u) -> In e (scan s u).
+Proof. intros s u e H; apply dedup_in in H; tauto. Qed.
+
+Lemma scan_all_events : forall s u e, In e (scan s u) -> In e (all_events s) /\ euid e = u.
+Proof.
+  intros s u e H. unfold scan in H. apply of_uid_In in H. destruct H as [H Hu]. split; [|exact Hu].
+  apply all_events_In. unfold mem_rows, seg_rows in H. fold (frows (passives s)) in H.
+  rewrite !in_app_iff in H. destruct H as [[H|H]|H]; [tauto|tauto|].
+  right; right; right; right; right; left.
+  fold (drows (scanned_dirs s)) in H. apply drows_In in H. destruct H as [d [Hd Hx]].
+  unfold scanned_dirs in Hd. apply filter_In in Hd. apply drows_In. exists d; tauto.
+Qed.
+
+(** after a restart every directory is live and every log file has been replayed *)
+Lemma scan_restart : forall s u,
+  scan (restart s) u = of_uid u (frows (walfiles s) ++ drows (dirs s)).
+Proof.
+  intros s u. unfold scan, mem_rows, seg_rows, scanned_dirs, restart; proj.
+  cbn [map concat]. rewrite app_nil_r. rewrite filter_all; [reflexivity|].
+  intros d Hd. apply orb_true_iff; left. apply memb_In, sort_n_In, in_map, Hd.
+Qed.
+
+Lemma scan_restart_crash : forall s u, scan (restart (crash s)) u = scan (restart s) u.
+Proof. intros; rewrite !scan_restart; reflexivity. Qed.
+
+Lemma scan_restart_In : forall s u e, In e (scan (restart s) u) <-> recoverable s e /\ euid e = u.
+Proof. intros; rewrite scan_restart, of_uid_In, in_app_iff; unfold recoverable; tauto. Qed.
+
+Lemma nodup_key_inj : forall P a b, NoDup (map ek P) -> In a P -> In b P -> ek a = ek b -> a = b.
+Proof.
+  induction P as [|x r IH]; intros a b Hn Ha Hb E; [destruct Ha|].
+  cbn [map] in Hn. inversion Hn as [|k ks Hk Hr]; subst.
+  destruct Ha as [->|Ha]; destruct Hb as [->|Hb].
+  - reflexivity.
+  - exfalso; apply Hk. rewrite E. apply in_map, Hb.
+  - exfalso; apply Hk. rewrite <- E. apply in_map, Ha.
+  - apply IH; assumption.
+Qed.
+
+(** a recoverable event is read exactly once after a restart, when keys are unique *)
+Lemma recoverable_read_once : forall c ls e,
+  NoDup (map ek (stored ls)) -> recoverable (run (init c) ls) e ->
+  occ e (select (restart (run (init c) ls)) (euid e)) = 1%nat.
+Proof.
+  intros c ls e Hn Hr. apply select_once.
+  - apply scan_restart_In; split; [exact Hr|reflexivity].
+  - intros e' He' Ek. apply scan_restart_In in He'. destruct He' as [He' _].
+    apply (nodup_key_inj (stored ls)); [exact Hn| | |exact Ek];
+      apply (reach_stored c), recoverable_all_events; assumption.
+Qed.
+
+Lemma select_restart_crash : forall s u, select (restart (crash s)) u = select (restart s) u.
+Proof. intros; unfold select; rewrite scan_restart_crash; reflexivity. Qed.
+
+(** ** C01, general form *)
+
+Theorem survives_unless_pruned : forall c ls e,
+  NoDup (map ek (stored ls)) ->
+  In e (durable ls) -> ~ In e (wlost (run (init c) ls)) ->
+  occ e (select (restart (crash (run (init c) ls))) (euid e)) = 1%nat /\
+  occ e (select (restart (run (init c) ls)) (euid e)) = 1%nat.
+Proof.
+  intros c ls e Hn Hd Hl. rewrite select_restart_crash.
+  assert (R : recoverable (run (init c) ls) e).
+  { destruct (safe_run c ls e Hd) as [H|H]; [contradiction|exact H]. }
+  split; apply recoverable_read_once; assumption.
+Qed.
+
+(** nothing is invented, in any reachable state; in particular after a crash and restart *)
+Theorem no_phantom : forall c ls u e,
+  In e (select (run (init c) ls) u) -> In e (stored ls) /\ euid e = u.
+Proof.
+  intros c ls u e H. apply select_scan, scan_all_events in H. destruct H as [H Hu].
+  split; [apply (reach_stored c), H|exact Hu].
+Qed.
+
+Theorem no_phantom_after_crash : forall c ls u e,
+  In e (select (restart (crash (run (init c) ls))) u) -> In e (stored ls) /\ euid e = u.
+Proof.
+  intros c ls u e H.
+  replace (restart (crash (run (init c) ls))) with (run (init c) ((ls ++ [LCrash]) ++ [LRestart])) in H
+    by (rewrite !run_snoc; reflexivity).
+  apply no_phantom in H. rewrite !stored_snoc in H. cbn [stored_by] in H. rewrite !app_nil_r in H. exact H.
+Qed.
+
+(** no result ever contains an event (or a key) twice: un-written events are absent or present once *)
+Theorem never_duplicated : forall s u e,
+  NoDup (map ek (select s u)) /\ (occ e (select s u) <= 1)%nat.
+Proof. intros; split; [apply select_keys_nodup|apply select_at_most_once]. Qed.
